@@ -142,7 +142,7 @@ theorem step_qsub (cfg : Cfg) (st : St) (e : Ev) :
         · exact Or.inl h
         · right; subst h
           simp at hs
-          exact ⟨rfl, hs, by simpa using hm⟩
+          exact ⟨rfl, hs, by have := hm; simp at this; exact this.1⟩
   | cancel sid =>
     simp only [step] at hr; split at hr
     · exact Or.inl (cancelSend_qsub st sid r hr)
